@@ -25,7 +25,7 @@ func init() {
 		id: "C18", level: "exploration",
 		technique: "runtime reference-model monitor: valid object data is validated by a real validator (recycling off and on), post.ApplyDefaults is applied to the real result, and the data afterwards is compared with what the independent draft-4 model extended with 'applicable schemata per member' prescribes: every absent member with an applicable default holds one of those defaults, present members are untouched (snapshot), nothing else appears",
 		rule: "object schemas with defaults at depth <=4 under properties, allOf, anyOf, oneOf, inside array items and tuple items, with local $ref; instances derived from the schema with random subsets of members present, kept when both the model and the library call them valid; distinct = FNV-64 of schema+instance; non-trivial = at least one absent member has an applicable default (something must be filled in)",
-		assumptions: []string{"dependencies are not part of the claim and not generated", "defaults of JSON null are not defaults for the library (s.Default != nil) and are not generated", "the draft-4 model and its applicable-schemata walk are trusted; sampled"},
+		assumptions: []string{"validity and the selection of anyOf/oneOf alternatives follow the library's documented Swagger rule that a required member whose property schema declares a default counts as present (the data is 'valid object data' by the library's own verdict)", "a default declared by a definition which the property schema merely references ($ref) may be filled in but is not demanded (the statement lists properties / allOf / anyOf / oneOf; the library fills such a default only when the enclosing schema was itself reached through a reference)", "dependencies are not part of the claim and not generated", "defaults of JSON null are not defaults for the library (s.Default != nil) and are not generated", "the draft-4 model and its applicable-schemata walk are trusted; sampled"},
 		quick: 150000, thorough: 4000000,
 	}})
 	lib.Register(&c19{base{
@@ -54,7 +54,7 @@ func validPair(r *lib.Rand, objectRoot bool) (st, it []byte, schema, inst any, o
 		if _, isObj := inst.(map[string]any); objectRoot && !isObj {
 			continue
 		}
-		mc := &model.Ctx{Root: schema, Formats: strfmt.Default}
+		mc := &model.Ctx{Root: schema, Formats: strfmt.Default, RequiredSatisfiedByDefault: true}
 		if mc.Valid(schema, inst) && !mc.Unresolved {
 			return st, it, schema, inst, true
 		}
@@ -131,9 +131,18 @@ func (p *c18) Run(w *lib.Worker, idx int, r *lib.Rand) lib.Case {
 	// what the model prescribes
 	type mk struct{ obj, member string }
 	defaults := map[mk][]any{}
-	mc := &model.Ctx{Root: schema, Formats: strfmt.Default}
+	optional := map[mk][]any{} // defaults reachable only through a bare $ref property schema: allowed, not demanded
+	mc := &model.Ctx{Root: schema, Formats: strfmt.Default, RequiredSatisfiedByDefault: true}
 	mc.Applicable(schema, inst, "", func(objPath, member string, present bool, s map[string]any) {
 		if present || s == nil {
+			return
+		}
+		if t, viaRef := s["x-verif-via-ref"].(map[string]any); viaRef {
+			// the property schema is a bare $ref: the statement lists properties / allOf / anyOf / oneOf, not
+			// references, so a default declared by the referenced definition MAY be filled in but is not demanded
+			if d, has := t["default"]; has && d != nil {
+				optional[mk{objPath, member}] = append(optional[mk{objPath, member}], d)
+			}
 			return
 		}
 		if d, has := s["default"]; has && d != nil {
@@ -193,7 +202,7 @@ func (p *c18) Run(w *lib.Worker, idx int, r *lib.Rand) lib.Case {
 					if _, was := b[k]; was {
 						continue
 					}
-					ds := defaults[mk{path, k}]
+					ds := append(append([]any{}, defaults[mk{path, k}]...), optional[mk{path, k}]...)
 					if len(ds) == 0 {
 						fail = fmt.Sprintf("member %s/%s appeared (= %s) although no applicable schema declares a default for it", path, k, model.Canon(n[k]))
 						return
@@ -263,7 +272,7 @@ func (p *c19) Run(w *lib.Worker, idx int, r *lib.Rand) lib.Case {
 		return lib.Case{Tags: []string{"no-valid-instance"}}
 	}
 	described := map[string]bool{}
-	mc := &model.Ctx{Root: schema, Formats: strfmt.Default}
+	mc := &model.Ctx{Root: schema, Formats: strfmt.Default, RequiredSatisfiedByDefault: true}
 	mc.Applicable(schema, inst, "", func(objPath, member string, present bool, s map[string]any) {
 		if present {
 			described[objPath+"\x00"+member] = true
